@@ -421,7 +421,7 @@ func (c *FnCtx) staticCall(fr *Frame, st *State, x *ssa.Call, callee *ssa.Functi
 			c.setResult(fr, x, c.callContract(fr, st, x, callee, gfc, args))
 			return
 		}
-		if !fr.ghost && c.noObl == 0 {
+		if !fr.ghost && c.noObl == 0 && !c.eng.isGhostFn(c.top) {
 			unsupported("ghost function %s called from real code", callee)
 		}
 		si := c.eng.specInfo(callee)
